@@ -49,3 +49,104 @@ Theorem C11_attribution_only_if_real_operand : forall e fam fld v x t,
 Proof. exact classify_correct. Qed.
 
 Print Assumptions C11_attribution_only_if_real_operand.
+
+(* ------------------------------------------------------------------------------------------------------------
+   Extension (operand reconstruction regenerated): theorems from Lemmas/StackGenLemmas.v about Gen/StackGen.v, the
+   translation of stack_ast_builder.py class Stack and construct_stack_ast, and about the regenerated
+   flatten / compute_equations of Gen/AssertedGen.v *)
+From Coq Require Import String List NArith ZArith Bool Arith.
+From Tealer Require Import Tables Syntax Parse Cfg StackAst KeysGen CfgGen StackGen AssertedGen StackLemmas StackGenLemmas.
+
+(* regenerated construct_stack_ast computes the hand-written block walk, for every program and block *)
+Theorem C11_stack_gen_eq :
+      forall (p : prog) (bb : block),
+       construct_stack_ast_gen p bb = option_map dict_of (construct_stack_ast p bb).
+Proof. exact @construct_stack_ast_gen_eq. Qed.
+
+(* with distinct positions the dictionary is the list of the model *)
+Theorem C11_stack_gen_nodup :
+      forall (p : prog) (bb : block),
+       NoDup (b_ins bb) ->
+       construct_stack_ast_gen p bb = option_map (map entry_of) (construct_stack_ast p bb).
+Proof. exact @construct_stack_ast_gen_nodup. Qed.
+
+(* Stack.pop_n_values of the source: the model pop on the reversed list, unknown padding on the deep side *)
+Theorem C11_stack_pop_gen_eq :
+      forall (vals : stackobj) (n : nat),
+       Stack_pop_n_values_gen vals n = Some (fst (pop_n (rev vals) n), rev (snd (pop_n (rev vals) n))).
+Proof. exact @Stack_pop_n_values_gen_eq. Qed.
+
+(* Stack.push_n_values of the source *)
+Theorem C11_stack_push_gen_eq :
+      forall (vals : stackobj) (l : list sval), Stack_push_n_values_gen vals l = Some (vals ++ l).
+Proof. exact @Stack_push_n_values_gen_eq. Qed.
+
+(* the operands reconstructed by the regenerated function denote the operands of any concrete run of the block, for any value type and instruction semantics respecting the declared stack effects *)
+Theorem C11_stack_gen_operands :
+      forall (val : Type) (sem : instr -> nat -> list val -> list val),
+       (forall (op : instr) (pos : nat) (vs : list val) (n m : nat),
+        stack_pop_size op = Some n ->
+        stack_push_size op = Some m -> Datatypes.length vs = n -> Datatypes.length (sem op pos vs) = m) ->
+       forall (p : prog) (bb : block) (cs : list val) (d : ast_dict) (tr : StackLemmas.trace val)
+         (fin : list val),
+       NoDup (b_ins bb) ->
+       construct_stack_ast_gen p bb = Some d ->
+       StackLemmas.crun_tr val sem p (b_ins bb) cs = Some (tr, fin) ->
+       forall (k : nat) (v : sval),
+       In (k, v) d ->
+       exists (op : instr) (args : list sval) (cargs : list val),
+         v = SKnown op k args 0 /\
+         op_at p k = Some op /\
+         stack_pop_size op = Some (Datatypes.length args) /\
+         In (k, cargs) (StackLemmas.consumed val tr) /\ Forall2 (StackLemmas.den val tr) args cargs.
+Proof. exact @construct_stack_ast_gen_operands. Qed.
+
+(* regenerated flattening on reconstructed values equals the leaves of the condition *)
+Theorem C11_flatten_gen_constructed :
+      forall (p : prog) (bb : block) (d : ast_dict) (pos : nat) (v : sval) (k : nodeclass) (fuel : nat),
+       construct_stack_ast_gen p bb = Some d ->
+       In (pos, v) d ->
+       kdepth k (cond_of v) <= fuel ->
+       option_map (map cond_of) (flatten_ast_gen fuel v k) = Some (kleaves k (cond_of v)).
+Proof. exact @flatten_constructed. Qed.
+
+(* regenerated compute_equations: known leaves and the unknown flag *)
+Theorem C11_equations_gen_eq_model :
+      forall (k : nodeclass) (fuel : nat) (v : sval),
+       spine_ok k v ->
+       kdepth k (cond_of v) <= fuel ->
+       exists (ks : list sval) (b : bool),
+         compute_equations_gen fuel v k = Some (ks, b) /\
+         map cond_of ks = filter (fun c : cond => negb (is_cunknown c)) (kleaves k (cond_of v)) /\
+         b = existsb is_cunknown (kleaves k (cond_of v)).
+Proof. exact @compute_equations_gen_eq_model. Qed.
+
+(* no And node survives the regenerated And-flattening *)
+Theorem C11_flatten_gen_no_and :
+      forall (fuel : nat) (v : sval) (l : list sval) (x : sval),
+       flatten_ast_gen fuel v K_And = Some l ->
+       In x l -> match cond_of x with
+                 | CAnd _ _ => False
+                 | _ => True
+                 end.
+Proof. exact @flatten_ast_gen_no_and. Qed.
+
+(* no Or node survives the regenerated Or-flattening *)
+Theorem C11_flatten_gen_no_or :
+      forall (fuel : nat) (v : sval) (l : list sval) (x : sval),
+       flatten_ast_gen fuel v K_Or = Some l ->
+       In x l -> match cond_of x with
+                 | COr _ _ => False
+                 | _ => True
+                 end.
+Proof. exact @flatten_ast_gen_no_or. Qed.
+
+Print Assumptions C11_stack_gen_eq.
+Print Assumptions C11_stack_gen_nodup.
+Print Assumptions C11_stack_pop_gen_eq.
+Print Assumptions C11_stack_push_gen_eq.
+Print Assumptions C11_stack_gen_operands.
+Print Assumptions C11_flatten_gen_constructed.
+Print Assumptions C11_equations_gen_eq_model.
+Print Assumptions C11_flatten_gen_no_and.
+Print Assumptions C11_flatten_gen_no_or.
